@@ -88,4 +88,89 @@ theorem noLoopRows_bounds (m : Mat) (hwf : WF m.nRow m.adj) :
       exact Nat.le_trans (List.length_filter_le _ _) (Nat.le_trans (row_length_le_maxOf m u hu) (Nat.le_add_right _ _))
     · simp
 
+/-! ### example matrices of Properties/C12.lean and their domain facts -/
+
+/-- the 2-cycle 0 ⇄ 1 -/
+def twoCycle : Mat :=
+  ⟨2, 2, fun i => if i = 0 then [1] else if i = 1 then [0] else [],
+    fun i j => if (i = 0 ∧ j = 1) ∨ (i = 1 ∧ j = 0) then 1 else 0⟩
+
+theorem twoCycle_canon : twoCycle.Canon := by
+  intro i j hi
+  have hi' : i < 2 := hi
+  match i, hi' with
+  | 0, _ =>
+    simp only [twoCycle, ↓reduceIte, List.mem_singleton, true_and, Nat.zero_ne_one, false_and, or_false]
+    constructor
+    · intro h; subst h; exact ⟨by decide, by decide⟩
+    · intro ⟨_, h⟩
+      apply Classical.byContradiction
+      intro hne
+      simp [hne] at h
+  | 1, _ =>
+    simp only [twoCycle, Nat.succ_ne_zero, ↓reduceIte, List.mem_singleton, false_and, true_and, false_or]
+    constructor
+    · intro h; subst h; exact ⟨by decide, by decide⟩
+    · intro ⟨_, h⟩
+      apply Classical.byContradiction
+      intro hne
+      simp [hne] at h
+
+
+/-- the directed 3-cycle 0 → 1 → 2 → 0 from root 0: the model removes the closing edge 2 → 0, and the hypotheses of
+    `breakCycles_directed` are met (one strong component, distances 0, 1, 2) -/
+def threeCycle : Mat := ⟨3, 3, fun i => [(i + 1) % 3], fun i j => if j = (i + 1) % 3 then 1 else 0⟩
+
+theorem threeCycle_canon : threeCycle.Canon := by
+  intro i j _
+  simp only [threeCycle, List.mem_singleton]
+  constructor
+  · intro h; subst h
+    exact ⟨Nat.mod_lt _ (by decide), by simp⟩
+  · intro ⟨_, h⟩
+    apply Classical.byContradiction
+    intro hne
+    simp [hne] at h
+
+
+/-! ### remarks about definitions -/
+
+/-- A remark about the *definition* of the matrix the model returns for `break_cycles` (it holds for every kept pattern
+    `a`, it is not a statement about the traversal): a kept entry carries the value of the input, every other entry is 0.
+    That the implementation keeps the weights is checked on every run (values in the run line, `subgraph` conjunct of
+    `c12.spec_break`), not proved. -/
+theorem breakResult_val (m : Mat) (a : Rows) (i j : Nat) :
+    (breakResult m a).val i j = if j ∈ a.row i then m.val i j else 0 := by
+  show (if a.has i j then m.val i j else 0) = _
+  by_cases h : j ∈ a.row i
+  · have : a.has i j = true := by simpa [Rows.has] using h
+    rw [this, if_pos h]; rfl
+  · have : a.has i j = false := by simpa [Rows.has] using h
+    rw [this, if_neg h]; rfl
+
+theorem eraseDups_length_le : ∀ (n : Nat) (l : List Nat), l.length ≤ n → l.eraseDups.length ≤ l.length := by
+  intro n
+  induction n with
+  | zero => intro l hl; have : l = [] := List.length_eq_zero_iff.mp (by omega); subst this; simp
+  | succ n ih =>
+    intro l hl
+    cases l with
+    | nil => simp
+    | cons a as =>
+      rw [List.eraseDups_cons]
+      have h1 : (as.filter fun b => !b == a).length ≤ as.length := List.length_filter_le _ _
+      have h2 := ih (as.filter fun b => !b == a) (by simp only [List.length_cons] at hl; omega)
+      simp only [List.length_cons]
+      omega
+
+/-- the set order used by the driver (`sortNat l.eraseDups`: CPython's increasing order for small node numbers)
+    enumerates exactly the members, each once: the hypotheses `hset1`, `hset2`, `hset3` of the `break_cycles` theorems -/
+theorem driverSetOrder_ok :
+    (∀ l x, x ∈ sortNat (List.eraseDups l) → x ∈ l) ∧ (∀ l x, x ∈ l → x ∈ sortNat (List.eraseDups l)) ∧
+    (∀ l : List Nat, (sortNat l.eraseDups).length ≤ l.length) := by
+  refine ⟨fun l x h => ?_, fun l x h => ?_, fun l => ?_⟩
+  · rw [mem_sortNat] at h; exact List.mem_eraseDups.mp h
+  · rw [mem_sortNat]; exact List.mem_eraseDups.mpr h
+  · rw [(sortNat_perm _).length_eq]; exact eraseDups_length_le l.length l (Nat.le_refl _)
+
 end SkNet.C12
